@@ -24,6 +24,7 @@ structure Stats where
   model : Nat := 0
   spec : Nat := 0
   noModel : Nat := 0
+  unmodelled : Nat := 0
   bad : Nat := 0
   modelMismatch : Nat := 0
   specViolation : Nat := 0
@@ -64,7 +65,7 @@ def panicDocumented (op : String) (args : Array String) : Bool :=
   | "Decimal.Sign" | "Decimal.Int64_" | "Decimal.Int32_" | "Decimal.Uint64" | "Decimal.Uint32" | "api.Float" => isNaN
   | "Decimal.Payload_" | "api.Payload" => !isNaN
   | "api.Int" | "api.Rat" | "api.RatRoundTrip" => isNaN || isInf
-  | "api.MustParse" => true
+  | "api.MustParse" | "MustParse" => true
   | _ => false
 
 partial def loop (tbl : Table) (spec : SpecTable) (h : IO.FS.Stream) (out : IO.FS.Stream) (st : Stats) : IO Stats := do
@@ -82,10 +83,15 @@ partial def loop (tbl : Table) (spec : SpecTable) (h : IO.FS.Stream) (out : IO.F
     match runModel tbl g op args with
     | none => st := { st with noModel := st.noModel + 1 }
     | some r =>
-      st := { st with model := st.model + 1 }
-      if r != res then
-        st := { st with modelMismatch := st.modelMismatch + 1 }
-        out.putStrLn s!"MODEL {line} ## model={" ".intercalate r.toList}"
+      -- the model stopped at a call of another package that is not modelled (Go.Panic.unmodelled):
+      -- nothing to compare on this line
+      if r == #["PANIC:unmodelled"] then
+        st := { st with unmodelled := st.unmodelled + 1 }
+      else
+        st := { st with model := st.model + 1 }
+        if r != res then
+          st := { st with modelMismatch := st.modelMismatch + 1 }
+          out.putStrLn s!"MODEL {line} ## model={" ".intercalate r.toList}"
     if op == "NONDET" then
       st := { st with spec := st.spec + 1, specViolation := st.specViolation + 1 }
       out.putStrLn s!"SPEC {line} ## nondeterministic result, modified input or modified global state"
@@ -107,7 +113,7 @@ def run (tbl : Table) (spec : SpecTable) : IO UInt32 := do
   let stdin ← IO.getStdin
   let stdout ← IO.getStdout
   let st ← loop tbl spec stdin stdout {}
-  stdout.putStrLn s!"STATS total={st.total} model={st.model} spec={st.spec} nomodel={st.noModel} bad={st.bad} model_mismatch={st.modelMismatch} spec_violation={st.specViolation}"
+  stdout.putStrLn s!"STATS total={st.total} model={st.model} spec={st.spec} nomodel={st.noModel} bad={st.bad} model_mismatch={st.modelMismatch} spec_violation={st.specViolation} unmodelled={st.unmodelled}"
   return 0
 
 end Oracle
